@@ -651,6 +651,18 @@ class HPayload:
                     for pkind in self.PKINDS:
                         yield {'kind': 'RunningOrderReplace', 'stories': tuple(gen.STORY_POOL[:n]), 'layout': layout,
                                'pkind': pkind, 'pretty': pretty}
+            if not pretty:
+                # rich (non-ASCII) payloads in str documents that carry a non-UTF-8 encoding declaration
+                d = {'pkind': 'rich', 'pretty': False, 'decl': True}
+                yield dict(d, kind='StoryAppend', payload=((new[0], 1),))
+                yield dict(d, kind='RunningOrderReplace', stories=tuple(gen.STORY_POOL[:2]), layout='before')
+                yield {'kind': 'MetaDataReplace', 'elems': ('roSlug', 'mem1'), 'pretty': False, 'decl': True}
+                for sid in ids[:1]:
+                    yield dict(d, kind='StoryReplace', tgt=sid, payload=((sid, 1),))
+                    yield {'kind': 'StorySend', 'sid': sid, 'body': (('p', 'unicode'), ('i', 'e')), 'body_pos': 'last', 'rich': True,
+                           'pretty': False, 'timing': 'both', 'decl': True}
+                for s_ in view.stories[:1]:
+                    yield dict(d, kind='ItemInsert', story=s_.id, tgt=BLANK, payload=(('e', 1),))
             mk = tuple(self.meta_keys) + ('mem0', 'memB')
             for n in range(1, len(mk) + 1):
                 for keys in itertools.combinations(mk, n):
@@ -667,7 +679,11 @@ class HPayload:
             text = gen.msg_ro_replace([self.pstory(i, 1, pk) for i in case['stories']], case['layout'], gen.meta_elems(3, variant=1))
         else:
             text = render_case(case, lambda i, v: self.pstory(i, v, pk), lambda i, v: self.pitem(i, v, pk))
-        return gen.prettify(text) if case.get('pretty') else text
+        text = gen.prettify(text) if case.get('pretty') else text
+        if case.get('decl'):
+            # a str document keeps its characters whatever its XML declaration says
+            text = '<?xml version="1.0" encoding="ISO-8859-1"?>' + text
+        return text
 
     def accept(self, ctx):
         return False
